@@ -44,8 +44,6 @@ def run(ck):
                 bump("crash_in_F3_class"); ck.known(findings["F3"], src.replace("\n", " ")[:160]); continue
             viol.append(("harness process died (memory corruption / abort) while running an accepted program", idx, {"rc": str(r['crash'])}))
             continue
-        if "F13" in cls:
-            bump("skipped_F13_if_in_tuple"); continue
         vm, ws = r.get('vm'), r.get('wasm')
         # ---------------- direct predicates on the implementation ----------------
         bad = []
